@@ -8,6 +8,11 @@ import (
 	"crypto/rsa"
 	"errors"
 	"fmt"
+	"io"
+	"net/http"
+	"net/http/httptest"
+	"net/url"
+	"strings"
 
 	"github.com/zitadel/saml/pkg/provider/key"
 	"github.com/zitadel/saml/pkg/provider/models"
@@ -37,7 +42,12 @@ func (a *vrtAuthReq) GetAuthRequestID() string            { return a.authRequest
 func (a *vrtAuthReq) GetIssuer() string                   { return a.issuer }
 func (a *vrtAuthReq) GetDestination() string              { return a.destination }
 func (a *vrtAuthReq) GetUserID() string                   { return a.userID }
-func (a *vrtAuthReq) Done() bool                          { a.doneCalls++; return a.done }
+func (a *vrtAuthReq) Done() bool {
+	if !vrtQuiet {
+		a.doneCalls++
+	}
+	return a.done
+}
 
 var _ models.AuthRequestInt = &vrtAuthReq{}
 
@@ -127,6 +137,9 @@ type vrtStore struct {
 }
 
 func (s *vrtStore) fail(op string) bool {
+	if vrtQuiet {
+		return false
+	}
 	if s.seq == nil {
 		s.seq = map[string]int{}
 	}
@@ -142,6 +155,9 @@ func (s *vrtStore) fail(op string) bool {
 }
 
 func (s *vrtStore) log(name string, ok bool, args ...string) {
+	if vrtQuiet {
+		return
+	}
 	s.calls = append(s.calls, vrtCall{Name: name, Args: args, OK: ok})
 }
 
@@ -174,7 +190,7 @@ func (s *vrtStore) keyRecord(op string, cert []byte, k *rsa.PrivateKey) (*key.Ce
 		s.log(op, false)
 		return nil, errors.New("vrt: storage fault in " + op)
 	}
-	if s.keyShapes {
+	if s.keyShapes && !vrtQuiet {
 		switch vrtChoice(fmt.Sprintf("st.%s.shape_%d", op, s.seq[op]), 5) {
 		case 1: // nil record
 			s.faulted = true
@@ -225,6 +241,9 @@ func (s *vrtStore) GetEntityIDByAppID(ctx context.Context, appID string) (string
 }
 
 func (s *vrtStore) CreateAuthRequest(ctx context.Context, req *samlp.AuthnRequestType, acsURL, binding, relayState, appID string) (models.AuthRequestInt, error) {
+	if vrtQuiet {
+		return s.created, nil
+	}
 	s.createdArgs = []string{acsURL, binding, relayState, appID}
 	s.createdReq = req
 	if s.fail("CreateAuthRequest") {
@@ -324,12 +343,101 @@ func vrtServe(p *Provider, rb *vrtReq) (vrtReply, bool) {
 	r := vrtReqBuild(rb)
 	vrtEpochRoot = p
 	vrtEpoch() // everything allocated before this point is provider-lifetime state
-	panicked := vrtTry(func() { p.HttpHandler().ServeHTTP(w, r) })
+	var sw http.ResponseWriter = w
+	if !vrtSymbolic() {
+		// history and schedule the solver's model asks for (sync.Pool contract, DESIGN §9.6)
+		if vrtBool("hist.abortedclient") {
+			vrtHistoryAbortedClients(p, rb)
+		}
+		if vrtBool("sched.interleave") {
+			sw = &vrtInterleavingWriter{ResponseWriter: w, hook: func() { vrtOtherClients(p, rb, false) }}
+		}
+	}
+	panicked := vrtTry(func() { p.HttpHandler().ServeHTTP(sw, r) })
 	if panicked {
 		return vrtReply{Kind: "panic"}, true
 	}
 	return vrtObserve(w), false
 }
+
+// vrtQuiet: requests of other clients (history, interleaving) are served by a
+// storage that answers nominally and keeps no bookkeeping.
+var vrtQuiet bool
+
+// vrtAbortingWriter is a client that goes away after accept bytes.
+type vrtAbortingWriter struct {
+	hdr    http.Header
+	accept int
+}
+
+func (a *vrtAbortingWriter) Header() http.Header { return a.hdr }
+func (a *vrtAbortingWriter) WriteHeader(int)     {}
+func (a *vrtAbortingWriter) Write(b []byte) (int, error) {
+	if len(b) <= a.accept {
+		a.accept -= len(b)
+		return len(b), nil
+	}
+	n := a.accept
+	a.accept = 0
+	return n, errors.New("vrt: client went away")
+}
+
+// vrtInterleavingWriter is a slow client: between the handler producing the
+// bytes of its first write and the transport consuming them, other requests
+// are served completely (same goroutine, so a sync.Pool hands them the objects
+// this request has just put back).
+type vrtInterleavingWriter struct {
+	http.ResponseWriter
+	hook func()
+	done bool
+}
+
+func (i *vrtInterleavingWriter) Write(b []byte) (int, error) {
+	if !i.done {
+		i.done = true
+		i.hook()
+	}
+	return i.ResponseWriter.Write(b)
+}
+
+// vrtOtherClients serves requests of other clients on the same provider: the
+// request under test once more (fresh ids), then a junk GET and POST on every
+// route. With abort the clients go away in the middle of the reply.
+func vrtOtherClients(p *Provider, rb *vrtReq, abort bool) {
+	vrtQuiet = true
+	defer func() { vrtQuiet = false }()
+	serve := func(r *http.Request, accept int) {
+		var w http.ResponseWriter = httptest.NewRecorder()
+		if abort {
+			w = &vrtAbortingWriter{hdr: http.Header{}, accept: accept}
+		}
+		func() {
+			defer func() {
+				if r := recover(); r != nil {
+					if s, ok := r.(vrtStop); ok {
+						panic(s)
+					}
+				}
+			}()
+			p.HttpHandler().ServeHTTP(w, r)
+		}()
+	}
+	for _, accept := range []int{0, 200} {
+		serve(vrtReqBuild(rb), accept)
+		for _, path := range vrtRoutePaths(p.HttpHandler()) {
+			q := "SAMLRequest=AAAA&SAMLResponse=AAAA&id=vrt-other-client&RelayState=vrt-other-client"
+			serve(&http.Request{Method: "GET", URL: &url.URL{Path: path, RawQuery: q}, Header: http.Header{}, Host: "other.example.test",
+				Body: http.NoBody, Proto: "HTTP/1.1", ProtoMajor: 1, ProtoMinor: 1}, accept)
+			serve(&http.Request{Method: "POST", URL: &url.URL{Path: path}, Header: http.Header{"Content-Type": {"application/x-www-form-urlencoded"}}, Host: "other.example.test",
+				Body: io.NopCloser(strings.NewReader(q)), ContentLength: int64(len(q)), Proto: "HTTP/1.1", ProtoMajor: 1, ProtoMinor: 1}, accept)
+		}
+		if !abort {
+			break
+		}
+	}
+}
+
+func vrtHistoryAbortedClients(p *Provider, rb *vrtReq) { vrtOtherClients(p, rb, true) }
 
 // vrtSPMetadata is an arbitrary (lazy) service-provider metadata document
 // run through the real registration API.
